@@ -28,11 +28,14 @@ MODULE = "StorageModel.Properties.C18"
 THEOREMS = ["read_sees_one_version", "one_version_per_read_tx", "all_or_nothing_visibility", "abort_invisible",
             "model_logs_pass_check", "paged_query_is_page_of_all",
             "no_unsynchronised_global_writes", "global_table_anchors",
-            "no_shared_mutable_escape", "shared_escape_meaning", "escape_table_anchors"]
+            "no_shared_mutable_escape", "shared_escape_meaning", "escape_table_anchors",
+            "no_append_onto_shared_slice", "append_table_meaning", "append_table_anchors"]
 TABLE_OBLIGATIONS = ["no_unsynchronised_global_writes (Generated/Globals.lean, regenerated from the package-level vars of zitiql/ast/boltz/objectz)",
                      "global_table_anchors (same table)",
                      "no_shared_mutable_escape (same file: escapes of mutable package-level variables + captured writes of escaping function literals)",
-                     "escape_table_anchors (same tables)"]
+                     "escape_table_anchors (same tables)",
+                     "no_append_onto_shared_slice (same file: every append whose first argument is / may alias a slice kept in a struct field or package variable)",
+                     "append_table_anchors (same table)"]
 
 RULE = ("mv: seeded random writer histories of 4..17 (quick) / 4..27 (thorough) transactions, each 1-4 operations "
         "(create-or-update of name/rank/roles, delete, SetLinks) over 6 things x 3 groups, 1 in 6 aborted; 2-5 reader "
@@ -49,9 +52,13 @@ RULE = ("mv: seeded random writer histories of 4..17 (quick) / 4..27 (thorough) 
         "goroutines released together run 150 (quick) / 500 (thorough) read transactions of 5 random such queries; recorded = "
         "baseline + first 2 per reader + every read transaction deviating from the baseline (<= 3 per reader); non-trivial = "
         "a recorded concurrent read transaction with a non-empty answer; distinct = (case, reader, n). "
-        "race: 6 scenarios x 6 goroutines under the race detector + 2 mv + 4 cr cases")
+        "Round 3: filters on nested elements of two map symbols (tags under ext/meta: site.name, site.zone, owner.name, a.b.c; attrs under "
+        "ext/meta/deep: a.b.c, a.x.c, site.name, owner.name), different readers using different nested keys; GetSymbol(A), GetSymbol(B), "
+        "A.Eval, B.Eval on one row (I). "
+        "race: 7 scenarios x 6 goroutines under the race detector + 2 mv + 4 cr cases")
 
 MATCHERS = {}
+REVIEWED_APPENDS = {("boltz", "NewBaseStore", "definition.BasePath")}   # = C18/Globals.lean reviewedAppends
 
 
 def _lines(s):
@@ -273,7 +280,7 @@ def run(ctx, replay_cases=None):
             probe = {"case": pcase, "race_reports": len(reps),
                      "first_report": reps[0] if reps else None,
                      "verdict": "outside the property's wording (a compiled ast.Query is a mutable object: setPaging stores default skip/limit nodes in it); reported, not counted"}
-    ctx.obligation("race search: no data-race report in concurrent ast.Parse / Store.GetSymbol / Is*Error helpers / parse+query under a writer / external-symbol filters / empty filter with per-reader paging (race detector; search only)",
+    ctx.obligation("race search: no data-race report in concurrent ast.Parse / Store.GetSymbol / Is*Error helpers / parse+query under a writer / external-symbol filters / empty filter with per-reader paging / nested map-symbol filters (race detector; search only)",
                    not reports, f"{len(reports)} report(s)")
 
     ctx.coverage.update({
@@ -342,6 +349,10 @@ def _escape_offenders():
         if g["kind"] == "plain" and g.get("mutable") and g.get("escapes"):
             res.append({"var": g["pkg"] + "." + g["name"], "decl": g["decl"], "type": g.get("type"), "mutable_because": g.get("mutableWhy"),
                         "handed_out_by": [f'{e["func"]} ({e["how"]}) at {e["pos"]}' for e in g["escapes"]]})
+    for a in facts.get("appends", []):
+        if a["how"] == "ontoShared" and not (a["pkg"], a["func"], a["operand"]) in REVIEWED_APPENDS:
+            res.append({"append_onto_stored_slice": a["pkg"] + "." + a["func"], "operand": a["operand"], "via_local": a.get("via"),
+                        "result": a.get("dest"), "at": a["pos"]})
     for c in facts.get("closures", []):
         ws = [w for w in (c.get("writes") or []) if not w["underLock"]]
         if ws:
